@@ -18,7 +18,7 @@ The library is supposed to satisfy this property:
 
 Your task: produce {n} DIFFERENT, independent source changes (different mechanisms / different functions), each of which
   (a) breaks this property in a realistic way - the kind of mistake a refactoring, an optimisation or an off-by-one could introduce, touching non-test .go files only;
-  (b) still compiles (go build ./... and go vet ./... in the worktree) and still passes the ENTIRE existing test suite unchanged: run `go test -vet=off -count=1 -timeout 25m ./...` in the worktree with the change applied (the store package alone takes about 4-5 minutes; run it to completion and check every package says ok);
+  (b) still compiles (go build ./... and go vet ./... in the worktree) and still passes the ENTIRE existing test suite unchanged: run `go test -vet=off -count=1 -timeout 25m ./...` in the worktree with the change applied (the store package alone takes about 4-5 minutes; run it to completion and check every package says ok; IMPORTANT: before running the suite move your out/ directory aside, e.g. rename it to .out_hidden, so that its demo files are not compiled as part of ./..., and move it back afterwards);
   (c) needs something specific to manifest - a particular multi-step sequence of operations, an unusual input (boundary index, special weight, particular store kind pair, empty/cleared object, specific size threshold), or two cooperating sites that each look fine alone - rather than being exposed at once by ordinary use. Prefer changes in shared mutable state, cursor/offset/bounds logic, reuse of cleared memory, fast paths vs fallbacks.
   Do not produce changes that merely alter documentation, error message text, performance, or that break compilation of reasonable client code. Do not special-case magic constants in a way no developer would write.
 
